@@ -153,6 +153,11 @@ std::vector<Clause> buildClauses() {
     add("read/unknown-type-ascii", "runtime_error", true, any, [](TasmanianSparseGrid &g, Rng &) { std::string s = validFile(false); size_t p = s.find("global"); if (p != std::string::npos) s.replace(p, 6, "glibal"); putFile("/simfs/bad.tsg", s); g.read("/simfs/bad.tsg"); });
     add("read/unknown-type-binary", "runtime_error", true, any, [](TasmanianSparseGrid &g, Rng &) { std::string s = validFile(true); s[4] = 'q'; putFile("/simfs/bad.tsg", s); g.read("/simfs/bad.tsg"); });
     add("read/future-version-ascii", "runtime_error", true, any, [](TasmanianSparseGrid &g, Rng &) { std::string s = validFile(false); size_t p = s.find("SG ") + 3, e = s.find_first_of(" \n", p); s.replace(p, e - p, "99.1"); putFile("/simfs/bad.tsg", s); g.read("/simfs/bad.tsg"); });
+    // same major version, later minor version (written by a newer release of the same series)
+    add("read/future-minor-version-ascii", "runtime_error", true, any, [](TasmanianSparseGrid &g, Rng &r) { std::string s = validFile(false); size_t p = s.find("SG ") + 3, e = s.find_first_of(" \n", p); std::string v = s.substr(p, e - p); size_t dot = v.find('.');
+        int major = atoi(v.substr(0, dot).c_str()), minor = dot == std::string::npos ? 0 : atoi(v.substr(dot + 1).c_str());
+        s.replace(p, e - p, std::to_string(major) + "." + std::to_string(minor + 1 + (int)r.below(7))); putFile("/simfs/bad.tsg", s);
+        if (r.chance(0.5)) g.read("/simfs/bad.tsg"); else { std::istringstream is(s); g.read(is, mode_ascii); } });
     add("read-stream/wrong-header", "runtime_error", true, any, [](TasmanianSparseGrid &g, Rng &r) { bool b = r.chance(0.5); std::string s = validFile(b); s[1] = 'X'; std::istringstream is(s); g.read(is, b); });
     add("write/unwritable-file", "runtime_error", false, nonEmpty, [](TasmanianSparseGrid &g, Rng &r) { simfs::fs().open_errno["/simfs/readonly/out.tsg"] = EACCES; g.write("/simfs/readonly/out.tsg", r.chance(0.5)); });
     return c;
